@@ -493,14 +493,8 @@ partial def customKinds : GoType → List (Nat × String)
   | .struct _ _ fs => fs.flatMap fun f => customKinds f.type
   | _ => []
 
-def timeEnv (kinds : List (Nat × String)) : Env :=
-  { envWith
-      (fun bs => match Avro.Time.parseTime bs with
-        | .ok f => some { unix := Avro.Time.unixOf f, nsec := f.nsec, off := f.offset }
-        | _ => none)
-      (fun t => match fieldsOfInstant t.unix t.nsec t.off with
-        | some f => Avro.Time.formatNano f
-        | none => []) with
+def sgEnv (kinds : List (Nat × String)) : Env :=
+  { timeEnv with
     custom := fun id => sgCustomCodec ((kinds.find? (·.1 == id)).map (·.2) |>.getD "long") }
 
 /-- occurrences of registered custom types that the writer must hand to their codec, in order.
@@ -645,10 +639,10 @@ def c20Verdict (c : SgCase) (vx : Sexp) (impl : Sexp) : Verdict :=
                         else if restLen != 0 then .oracle s!"{restLen} bytes left unread"
                         else
                           -- (3) bytes and decoded value against the model's codec tree
-                          let env := timeEnv (customKinds c.ty)
+                          let env := sgEnv (customKinds c.ty)
                           if multiEntryMap v then .ok s!"c20/roundtrip/{cls}/multi-entry-map"
                           else
-                            match write env codec v with
+                            match write env bigFuel codec v with
                             | some mb =>
                               if mb != bs then .diff s!"model bytes {bytesToHex mb}"
                               else
